@@ -269,3 +269,41 @@ def resolve_local_names(contract, stmts):
         c["local_kinds"] = {actual.get(k, k): v for k, v in c["local_kinds"].items()}
     c["resolved_locals"] = actual
     return c
+
+
+_EXC_PARENTS = None
+
+
+def exception_ancestors(name):
+    """Names of the classes `name` inherits from: class statements anywhere under <repo>/pyrates (read from the current source),
+    continued through Python's builtin exception hierarchy."""
+    global _EXC_PARENTS
+    root = repo_root()
+    if _EXC_PARENTS is None or _EXC_PARENTS[0] != root:
+        parents = {}
+        for dirpath, _, files in os.walk(os.path.join(root, "pyrates")):
+            for fn in files:
+                if fn.endswith(".py"):
+                    try:
+                        mod = ast.parse(open(os.path.join(dirpath, fn)).read())
+                    except (SyntaxError, OSError):
+                        continue
+                    for node in ast.walk(mod):
+                        if isinstance(node, ast.ClassDef):
+                            bases = [b.id if isinstance(b, ast.Name) else b.attr if isinstance(b, ast.Attribute) else None for b in node.bases]
+                            parents.setdefault(node.name, set()).update(b for b in bases if b)
+        _EXC_PARENTS = (root, parents)
+    parents = _EXC_PARENTS[1]
+    import builtins
+    out, todo = set(), [name]
+    while todo:
+        n = todo.pop()
+        for b in parents.get(n, ()):
+            if b not in out:
+                out.add(b)
+                todo.append(b)
+        cls = getattr(builtins, n, None)
+        if isinstance(cls, type) and issubclass(cls, BaseException):
+            for c in cls.__mro__[1:]:
+                out.add(c.__name__)
+    return out
